@@ -944,7 +944,10 @@ impl Hist {
     fn check_exact(&mut self, qs: &[EP]) -> Vec<(String, String)> {
         let mut bad = Vec::new();
         let slot = self.slot;
-        for q in qs {
+        for (qi, q) in qs.iter().enumerate() {
+            if qi % 256 == 255 {
+                beat("check/query sweep (next block of queries)");
+            }
             let exp = self.m.get(*q);
             let ev_ = exp.map(|x| x.1);
             if self.is_set {
@@ -996,7 +999,10 @@ impl Hist {
                 }
             }};
         }
-        for q in qs {
+        for (qi, q) in qs.iter().enumerate() {
+            if qi % 256 == 255 {
+                beat("check/query sweep (next block of queries)");
+            }
             let exp = self.m.get(*q).map(|x| x.0);
             chk!("get_key_value", self.w.q1(slot, Q1::GetKeyValue, *q).map(|x| x.0), exp, q);
             // a second host-bit pattern must give the same answer
@@ -1051,7 +1057,10 @@ impl Hist {
     fn check_lpm(&mut self, qs: &[EP]) -> Vec<(String, String)> {
         let mut bad = Vec::new();
         let slot = self.slot;
-        for q in qs {
+        for (qi, q) in qs.iter().enumerate() {
+            if qi % 256 == 255 {
+                beat("check/query sweep (next block of queries)");
+            }
             let exp = self.m.lpm(*q);
             let obs: Vec<(Q1, bool)> = if self.is_set { vec![(Q1::GetLpm, false)] } else { vec![(Q1::GetLpm, true), (Q1::GetLpmPrefix, false), (Q1::GetLpmMut, true)] };
             for (which, with_val) in obs {
@@ -1082,7 +1091,10 @@ impl Hist {
     fn check_cover(&mut self, qs: &[EP]) -> Vec<(String, String)> {
         let mut bad = Vec::new();
         let slot = self.slot;
-        for q in qs {
+        for (qi, q) in qs.iter().enumerate() {
+            if qi % 256 == 255 {
+                beat("check/query sweep (next block of queries)");
+            }
             let exp = self.m.cover(*q);
             let lists: Vec<QL> = if self.is_set { vec![QL::Cover] } else { vec![QL::Cover, QL::CoverKeys, QL::CoverValues] };
             for which in lists {
@@ -1147,7 +1159,10 @@ impl Hist {
     fn check_children(&mut self, qs: &[EP]) -> Vec<(String, String)> {
         let mut bad = Vec::new();
         let slot = self.slot;
-        for q in qs {
+        for (qi, q) in qs.iter().enumerate() {
+            if qi % 256 == 255 {
+                beat("check/query sweep (next block of queries)");
+            }
             let exp = self.m.covered_by(*q);
             let lists: Vec<QL> = if self.is_set { vec![QL::Children] } else { vec![QL::Children, QL::ChildrenMut, QL::IntoChildren] };
             for which in lists {
@@ -1384,7 +1399,17 @@ impl Hist {
                 progs.push((ViewProg { root: None, nav: vec![match which { 0 => Nav::Find(*q), 1 => Nav::FindExact(*q), _ => Nav::FindLpm(*q) }] }, mutable));
             }
         }
-        for (prog, mutable) in progs {
+        // keep one step's cost bounded on the large universes of the wide types: a random subsample
+        if self.g.w > 8 && progs.len() > 6000 {
+            self.g.rng.shuffle(&mut progs);
+            progs.truncate(6000);
+            ev.count("view/program_lists_subsampled", 1);
+        }
+        for (pi, (prog, mutable)) in progs.into_iter().enumerate() {
+            if pi % 64 == 0 {
+                // this loop is oracle work, not one library call: tell the divergence detector it progresses
+                beat("check/views (next block of view programs)");
+            }
             let steps = self.w.view(slot, &prog, mutable);
             let c = check_view(&self.m, shape, &prog, &steps, mutable, want11, want12, self.canonical, cmp);
             ev.count("view/programs", 1);
